@@ -14,7 +14,7 @@ from mcx.ref import exmap as xm
 from mcx.seams import owned_random
 
 SCALES = (1.0, 0.5, 0.25, 1.5, 2.0)
-PLACES = ('near', 'between', 'far', 'neartie', 'onanchor')
+PLACES = ('near', 'between', 'far', 'neartie', 'onanchor', 'veryfar')
 TOL = 1e-9
 
 
@@ -55,10 +55,21 @@ class C01(Check):
             mod = {3: 1, 4: 2, 5: 16}[n]
             for geo in list(xm.NEAR) + list(xm.SMALL):
                 u += [{'n': n, 'geo': [geo], 'mod': mod, 'r': r} for r in range(mod)]
+        self.bounds['topology_edit'] = ('every graph on 3..4 atoms x every one of its edges added LAST, after a first map '
+                                        'was built and used on the graph without it; generic geometry')
+        u += [{'n': n, 'geo': ['generic'], 'mod': m_, 'r': r, 'edit': 1} for n, m_ in ((3, 1), (4, 6)) for r in range(m_)]
         return u
 
     def cases(self, unit, tier, seed):
         n = unit['n']
+        if unit.get('edit'):
+            for i, edges in enumerate(xm.ref_graphs(n)):
+                if i % unit['mod'] != unit['r']:
+                    continue
+                for e in edges:
+                    for place in ('near', 'between'):
+                        yield {'n': n, 'edges': edges, 'geo': 'generic', 'm': 3, 'place': place, 'add': list(e)}
+            return
         # thorough: 6-atom target everywhere, the 40-atom target on references up to 4 atoms
         sizes = [1, 2, 3] + ([6] if tier == 'thorough' else []) + ([40] if tier == 'thorough' and n <= 4 else [])
         for i, edges in enumerate(xm.ref_graphs(n)):
@@ -68,6 +79,9 @@ class C01(Check):
                 for m in sizes:
                     for place in PLACES:
                         yield {'n': n, 'edges': edges, 'geo': geo, 'm': m, 'place': place}
+                    if m == 3:        # the same target split into two residues (atoms keep their molecule-wide order)
+                        for place in ('near', 'between'):
+                            yield {'n': n, 'edges': edges, 'geo': geo, 'm': m, 'place': place, 'tres': 2}
 
     # ------------------------------------------------------------------
     def check_case(self, case, R, seed):
@@ -76,6 +90,29 @@ class C01(Check):
         with owned_random(lambda kind, a, k: np.array([0.31, 0.77, 0.52])):
             self._run(case, R, seed)
 
+    _edit_count = [0]
+
+    def _edited_ref(self, case, seed):
+        """A fresh reference with the ORIGINAL graph on which a map is built and used; then the bond case['add'] is
+        added to its topology object.  The map built afterwards must see the new anchors."""
+        from gaddlemaps import ExchangeMap
+        from mcx.build import generic_points, molecule, simple_atoms
+        n = case['n']
+        base = [e for e in case['edges'] if sorted(e) != sorted(case['add'])]
+        self._edit_count[0] += 1
+        ref = molecule('REF', simple_atoms(n, 'E%04d' % (self._edit_count[0] % 10000), 'C'), [tuple(e) for e in base],
+                       generic_points(n, 0, tag=1))
+        ref.atoms_positions = xm.ref_positions(case['geo'], n, seed)
+        t0 = xm.tgt_molecule(2)
+        t0.atoms_positions = ref.atoms_positions[:2] + 0.03
+        try:
+            ExchangeMap(ref, t0, 0.5)(ref)
+        except Exception:
+            pass                      # the graph before the edit may have no anchor at all
+        a, b = case['add']
+        ref.molecule_top[a].connect(ref.molecule_top[b])
+        return ref
+
     def _run(self, case, R, seed):
         from gaddlemaps import ExchangeMap
         n, edges, geo, m, place = case['n'], case['edges'], case['geo'], case['m'], case['place']
@@ -83,11 +120,12 @@ class C01(Check):
         rpos = xm.ref_positions(geo, n, seed)
         tpos = xm.target_positions(rpos, anch, m, place, seed,
                                    margin=xm.MARGIN * xm.SMALL.get(geo, 1.0))
-        ref = xm.ref_molecule(n, edges)
+        ref = self._edited_ref(case, seed) if 'add' in case else xm.ref_molecule(n, edges, case.get('tres', 1))
         ref.atoms_positions = rpos.copy()
-        tgt = xm.tgt_molecule(m)
+        tgt = xm.tgt_molecule(m, case.get('tres', 1))
         tgt.atoms_positions = tpos.copy()
-        cls = f'n{n}/{geo}/m{m}/{place}'
+        cls = f'n{n}/{geo}/m{m}/{place}' + ('/two-residue-target' if case.get('tres') == 2 else '') + \
+            ('/bond-added-after-a-first-map' if 'add' in case else '')
         for s in ([case['s']] if 's' in case else SCALES):
             cdesc = dict(case, s=s)
             assign, exp, marg = xm.ref_map(rpos, anch, tpos, s)
